@@ -2950,3 +2950,120 @@ def c16_rules(ctx):
     # read_existing_system_table's closure parameter is internal: all callers pass local closures
     cs = ctx.facts.callers_of('WriteTransaction::read_existing_system_table')
     ctx.check(all(p.startswith('transactions::WriteTransaction::') for p in cs), 'internal-callback|read_existing_system_table', 'read_existing_system_table is only called from WriteTransaction methods (its closure is internal code)')
+
+
+# ------------------------------------------------------------------------------------ page walkers (C06/C11/C12/C17)
+def walker_rules(ctx):
+    ctx.set_rule('C06.R4b', 'the page walk used by rebuild / delete / compaction covers the catalog, every table of both kinds, every child and every multimap subtree')
+    f = ctx.fn('TableTree::visit_all_pages')
+    if f is not None:
+        m = ctx.sites(f, 'Btree::visit_all_pages', exact=1)
+        lt = ctx.sites(f, 'TableTree::list_tables', exact=2)
+        dv = ctx.sites(f, 'InternalTableDefinition::visit_all_pages', exact=2)
+        kinds = set()
+        for p_ in lt:
+            term = core.sym(f).operand(p_.call.t['a'][1])
+            kinds.add(term[2] if term[0] == 'agg' else None)
+        ctx.check(kinds == {'Normal', 'Multimap'}, 'const|%s|kinds' % f.path, 'both table kinds are listed and walked (found %s)' % sorted(map(str, kinds)), f, f.line)
+        ctx.must_pass(f, m, what='the catalog tree itself is walked')
+        for p_ in lt:
+            ctx.must_pass(f, [p_], what='tables of each kind are listed on every success path')
+        # inside each loop the definition walk is not skippable: from get_table_untyped to the next iteration
+        gu = ctx.sites(f, 'TableTree::get_table_untyped', exact=2)
+        nxt = [c for c in f.calls if c.matches('Iterator::next')]
+        for g_ in gu:
+            r = core.reach(f, start=(g_.bb, g_.idx), cut_blocks={d.bb for d in dv} | core.error_blocks(f))
+            skipped = [n for n in nxt if n.bb in r['term']] or [rb for rb in f.ret_blocks() if rb in r['term']]
+            ctx._ob(not skipped, ctx.sample('must-pass', f, g_.line, 'every listed table is walked before the loop advances'))
+            if skipped:
+                ctx.violate('must-pass|%s|table-walk-skipped' % f.path, 'a listed table can be skipped by the page walk', f, g_.line)
+    f = ctx.fn('InternalTableDefinition::visit_all_pages')
+    if f is not None:
+        a = ctx.sites(f, 'UntypedBtree::visit_all_pages', exact=1)
+        b = ctx.sites(f, 'UntypedMultiBtree::visit_all_pages', exact=1)
+        ctx.guarded(f, a, [Guard(place='self', vals={'Normal'})])
+        ctx.guarded(f, b, [Guard(place='self', vals={'Multimap'})])
+        ctx.must_pass(f, a + b, what='every definition kind is walked')
+    f = ctx.fn('UntypedBtree::visit_pages_helper')
+    if f is not None:
+        rec = ctx.sites(f, 'UntypedBtree::visit_pages_helper', exact=1)
+        vc = [c for c in f.calls if c.declared and c.declared.split('::')[-1] in ('call_mut', 'call_once', 'call')]
+        ctx.check(len(vc) == 1, 'floor|%s|visitor' % f.path, 'the visitor is applied to the page', f, f.line)
+        if vc:
+            ctx.must_pass(f, [cpoint(vc[0], 'visitor call')], what='every visited page reaches the visitor')
+        for p_ in rec:
+            ctx.flows(f, p_, 1, from_call='BranchAccessor::child_page', what='recursion over the children of the branch')
+        # every child: from child_page call to next loop iteration the recursion is not skippable (except the error returns)
+        cp = ctx.sites(f, 'BranchAccessor::child_page', exact=1)
+        nxt = [c for c in f.calls if c.matches('Iterator::next')]
+        if cp and rec:
+            r = core.reach(f, start=(cp[0].bb, cp[0].idx), cut_blocks={rec[0].bb} | core.error_blocks(f))
+            skipped = [n for n in nxt if n.bb in r['term']] or [rb for rb in f.ret_blocks() if rb in r['term']]
+            ctx._ob(not skipped, ctx.sample('must-pass', f, cp[0].line, 'every child is descended into'))
+            if skipped:
+                ctx.violate('must-pass|%s|child-skipped' % f.path, 'a child page can be skipped by the page walk', f, cp[0].line)
+        # the loop covers count_children
+        cc = ctx.sites(f, 'BranchAccessor::count_children', exact=1)
+    f = ctx.fn('UntypedMultiBtree::visit_all_pages')
+    if f is not None:
+        ctx.sites(f, 'UntypedBtree::visit_all_pages', exact=1)
+        clo = [c for c in f.closures if c.calls_to('multimap_btree::parse_subtree_roots')]
+        ctx.check(len(clo) == 1, 'floor|%s|subtree-closure' % f.path, 'the per-page closure parses subtree roots', f, f.line)
+        for cl in clo:
+            sv = ctx.sites(cl, 'UntypedBtree::visit_all_pages', exact=1)
+            ps = ctx.sites(cl, 'multimap_btree::parse_subtree_roots', exact=1)
+            gp = ctx.sites(cl, 'PageResolver::get_page', exact=1)
+            for p_ in ps:
+                ctx.flows(cl, p_, 0, from_call='PageResolver::get_page')
+            for p_ in gp:
+                ctx.flows(cl, p_, 1, from_call='PagePath::page_number', what='subtree roots are parsed from the page being visited')
+    f = ctx.fn('multimap_btree::parse_subtree_roots')
+    if f is not None:
+        pu = ctx.sites(f, 'Vec::push', exact=1)
+        ctx.guarded(f, pu, [Guard(call='DynamicCollection::collection_type', vals={'SubtreeV2'})])
+        ns = None
+        for a_ in ctx.facts.adts.values():
+            if a_['p'].endswith('multimap_btree::DynamicCollectionType'):
+                ns = {v['n'] for v in a_['variants']}
+        if ns:
+            e_other = core.guard_edges(f, [Guard(call='DynamicCollection::collection_type', vals=ns - {'SubtreeV2'})])
+            ct = ctx.sites(f, 'DynamicCollection::collection_type', exact=1)
+            if ct and pu:
+                r = core.reach(f, start=(ct[0].bb, ct[0].idx), cut_edges=e_other, cut_blocks={pu[0].bb})
+                nxt = [c for c in f.calls if c.matches('Iterator::next')]
+                skipped = [n for n in nxt if n.bb in r['term']]
+                ctx.check(not skipped, 'must-pass|%s|subtree-skipped' % f.path, 'every SubtreeV2 entry of a leaf yields its subtree root', f, ct[0].line)
+    ctx.set_rule('C10.R3b', 'a staged table root is marked dirty iff its root page is uncommitted; only clean, unchanged roots are skipped by the flush')
+    f = ctx.fn('TableTreeMut::stage_update_table_root')
+    if f is not None:
+        ins = ctx.sites(f, 'BTreeMap::insert', exact=1)
+        for p_ in ins:
+            ok_flow = core.flows_from_call(f, p_.call.t['a'][2], 'Option::is_some_and')
+            ctx.check(ok_flow, 'flow|%s|dirty' % f.path, 'the staged dirty flag derives from the uncommitted() test of the root page', f, p_.line)
+        clo = [c for c in f.closures if c.calls_to(PA + '::uncommitted')]
+        ctx.check(len(clo) == 1, 'floor|%s|uncommitted-closure' % f.path, 'the dirty test asks PageAllocator::uncommitted', f, f.line)
+    f = ctx.fn('TableTreeMut::flush_table_root_updates')
+    if f is not None:
+        ins = ctx.sites(f, 'BtreeMut::insert', exact=1)
+        nxt = ctx.sites(f, 'Iterator::next', exact=1)
+        # the skip (loop advances without insert) needs `dirty == false`
+        e_clean = core.guard_edges(f, [Guard(place='dirty', vals={'false'})])
+        ctx.check(bool(e_clean), 'guard-missing|%s|dirty' % f.path, 'flush_table_root_updates tests the dirty flag', f, f.line)
+        g_ = ctx.sites(f, 'BtreeMut::get', exact=1)
+        if g_ and ins and nxt:
+            r = core.reach(f, start=(g_[0].bb, g_[0].idx), cut_edges=e_clean, cut_blocks={ins[0].bb} | core.error_blocks(f))
+            skipped = nxt[0].bb in r['term'] or any(rb in r['term'] for rb in f.ret_blocks())
+            ctx._ob(not skipped, ctx.sample('must-pass', f, g_[0].line, 'a dirty staged root is always written to the catalog'))
+            if skipped:
+                ctx.violate('must-pass|%s|dirty-root-skipped' % f.path, 'a staged table root with dirty (DEFERRED) checksums can be skipped by flush_table_root_updates', f, g_[0].line)
+    ctx.set_rule('C06.R3b', 'both freed tables are processed by a durable commit')
+    f = ctx.fn(WT + '::process_freed_pages')
+    if f is not None:
+        ex = ctx.sites(f, WT + '::extract_freed_pages', exact=2)
+        names = set()
+        for p_ in ex:
+            a_ = p_.call.t['a'][1]
+            names.add(a_[3] if a_[0] == 'k' and len(a_) > 3 else None)
+        ctx.check(names == {'transactions::DATA_FREED_TABLE', 'transactions::SYSTEM_FREED_TABLE'}, 'const|%s|tables' % f.path, 'process_freed_pages drains DATA_FREED_TABLE and SYSTEM_FREED_TABLE (found %s)' % sorted(map(str, names)), f, f.line)
+        for p_ in ex:
+            ctx.must_pass(f, [p_], what='both freed tables are drained on every success path')
